@@ -371,6 +371,75 @@ def job_array(job, variants=(("f8", False), ("i8", False), ("i8", True), ("f8", 
             job.errors.append(f"array[{tagv}]: expected the three orderings around the bubble point, got {sorted(seen)}")
 
 
+def replay_array3(model):
+    """Three pressures in arbitrary order through the array entry point of solution_gor_Standing (and B_o): element by
+    element the plateau above and the inverse pair below the bubble point."""
+    import numpy as np
+    from bluebonnet.fluids import oil
+    m = model_floats(model, ["T", "api", "gg", "rsi", "q0", "q1", "q2"], default=dict(T=200.0, api=35.0, gg=0.8, rsi=650.0, q0=4000.0, q1=800.0, q2=1500.0))
+    T_, api, gg, rsi = _oil_args(m)
+    pb = float(oil.pressure_bubblepoint_Standing(T_, api, gg, rsi))
+    cands = [[m["q0"], m["q1"], m["q2"]]]
+    if pb > 60:
+        cands += [[1.5 * pb, 0.3 * pb, 0.7 * pb], [0.7 * pb, 1.5 * pb, 0.3 * pb], [2.0 * pb, 1.2 * pb, 0.5 * pb]]
+    problems = []
+    for qs in cands:
+        if not all(15 <= q <= 2.5 * pb for q in qs) or pb <= 50:
+            continue
+        with np.errstate(all="ignore"):
+            rs = np.asarray(oil.solution_gor_Standing(T_, np.array(qs), api, gg, rsi), float)
+        for j, q in enumerate(qs):
+            if q >= pb and rs[j] != rsi:
+                problems.append(f"pressures {qs}: R_s[{j}] = {rs[j]!r} at/above p_b={pb!r}, R_si={rsi!r}")
+            elif q < pb:
+                back = float(oil.pressure_bubblepoint_Standing(T_, api, gg, float(rs[j])))
+                if abs(back - q) > 1e-8 * q:
+                    problems.append(f"pressures {qs}: p_b(R_s[{j}]) = {back!r} for p = {q!r} below the bubble point {pb!r}")
+    return bool(problems), {"what": "; ".join(problems[:2]) or "element-wise orderings hold", "inputs": m}
+
+
+def job_array3(job):
+    """Three pressures in arbitrary order (unsorted, straddling the bubble point in every way) through the array entry
+    point of solution_gor_Standing."""
+    from ..shims.np_shim import SymArray, Uninit
+    oil = load_sym("bluebonnet.fluids.oil")
+    job.encoded(oil, "solution_gor_Standing", "pressure_bubblepoint_Standing")
+    ranges = dict(OIL_BOX)
+    ranges.update(q0=(15, 50000), q1=(15, 50000), q2=(15, 50000))
+    vs, dom = box(job, **ranges)
+    a4 = (vs["T"], vs["api"], vs["gg"], vs["rsi"])
+    T_, api, gg, rsi = a4
+    qs = [vs["q0"], vs["q1"], vs["q2"]]
+    pb, pbc = _pb_conds(oil, a4, qs)
+    dom = dom + pbc
+
+    def run():
+        rs = oil.solution_gor_Standing(T_, SymArray(list(qs), "f8"), api, gg, rsi)
+        return rs, [bool(q >= pb) for q in qs]
+    res = paths(job, run, dom, max_paths=64)
+    seen = set()
+    for k, r in enumerate(res):
+        if r.exc is not None:
+            job.prove(f"array3/raises {type(r.exc).__name__}[path{k}]", r.pc, bound="oil box", replay=replay_array3, note=str(r.exc)[:80])
+            continue
+        rs, sides = r.value
+        seen.add(tuple(sides))
+        tag = "array3[" + ",".join(">=" if a else "<" for a in sides) + " pb]"
+        if not isinstance(rs, SymArray) or len(rs.d) != 3 or any(isinstance(x, Uninit) for x in rs.d):
+            job.prove(f"{tag}/full length-3 result", r.pc, bound="oil box", replay=replay_array3)
+            continue
+        bad = []
+        for j in range(3):
+            if sides[j]:
+                bad.append(not_close(rs.d[j], rsi))
+            else:
+                bad.append(not_close(oil.pressure_bubblepoint_Standing(T_, api, gg, rs.d[j]), qs[j]))
+        job.prove(f"{tag}/each element: Rs==Rsi at/above pb, pb(Rs)==p below", r.pc + [T.b_or(*bad)], bound="oil box, 3 pressures in any order", replay=replay_array3)
+        job.prove(f"{tag}/reach", r.pc, expect="info")
+    if len(seen) != 8:
+        job.errors.append(f"array3: expected all 8 placements of three pressures around the bubble point, got {len(seen)}")
+
+
 def replay_zero_d(model, fn="density_Standing"):
     """The oil correlations with their scalar parameters passed as 0-d numpy arrays (np.array(650.0)): same results as with
     floats on both sides of the bubble point, and the caller's arrays are left alone."""
@@ -434,6 +503,6 @@ from .c19 import job_facade_oil_reassigned, replay_facade  # noqa: E402,F401
 
 
 def jobs(tier):
-    return [("continuity", job_continuity), ("Rs", job_rs), ("Bo", job_bo), ("viscosity", job_visc), ("facade-oil-reassigned", job_facade_oil_reassigned), ("zero-d-parameters", job_zero_d)] + \
+    return [("continuity", job_continuity), ("Rs", job_rs), ("Bo", job_bo), ("viscosity", job_visc), ("facade-oil-reassigned", job_facade_oil_reassigned), ("zero-d-parameters", job_zero_d), ("array3-unsorted", job_array3)] + \
         [(f"array-{dt}{'-int' if intp else ''}", (lambda j, v=(dt, intp): job_array(j, (v,)))) for dt, intp in (("f8", False), ("i8", False), ("i8", True), ("f8", True))] + \
         [("array-f8-descending", lambda j: job_array(j, (("f8", False, True),)))]
